@@ -35,6 +35,8 @@ pub struct CommandAcknowledgementHandle {
     done: AtomicBool,
     status: Arc<Mutex<CommandStatus>>,
     waker_state: Arc<Mutex<WakerState>>,
+    #[cfg(feature = "verif_hooks")]
+    verif: Option<crate::cache::verif::AckHandler>,
 }
 
 pub(crate) struct WakerState {
@@ -52,6 +54,8 @@ impl CommandAcknowledgement {
                     waker_state: Arc::new(Mutex::new(WakerState {
                         waker: None
                     })),
+                    #[cfg(feature = "verif_hooks")]
+                    verif: None,
                 },
             }
         )
@@ -65,6 +69,8 @@ impl CommandAcknowledgement {
                     waker_state: Arc::new(Mutex::new(WakerState {
                         waker: None
                     })),
+                    #[cfg(feature = "verif_hooks")]
+                    verif: None,
                 },
             }
         )
@@ -78,6 +84,8 @@ impl CommandAcknowledgement {
                     waker_state: Arc::new(Mutex::new(WakerState {
                         waker: None
                     })),
+                    #[cfg(feature = "verif_hooks")]
+                    verif: None,
                 },
             }
         )
@@ -88,6 +96,29 @@ impl CommandAcknowledgement {
         self.handle.done(status);
     }
 
+    /// A pending acknowledgement whose schedule points call `handler` (feature `verif_hooks` only).
+    #[cfg(feature = "verif_hooks")]
+    pub fn verif_new(handler: Option<crate::cache::verif::AckHandler>) -> Arc<CommandAcknowledgement> {
+        Arc::new(
+            CommandAcknowledgement {
+                handle: CommandAcknowledgementHandle {
+                    done: AtomicBool::new(false),
+                    status: Arc::new(Mutex::new(CommandStatus::Pending)),
+                    waker_state: Arc::new(Mutex::new(WakerState {
+                        waker: None
+                    })),
+                    verif: handler,
+                },
+            }
+        )
+    }
+
+    /// Completes the acknowledgement exactly as the command worker does (feature `verif_hooks` only).
+    #[cfg(feature = "verif_hooks")]
+    pub fn verif_done(&self, status: CommandStatus) {
+        self.done(status);
+    }
+
     pub fn handle(&self) -> &CommandAcknowledgementHandle {
         &self.handle
     }
@@ -96,11 +127,24 @@ impl CommandAcknowledgement {
 impl CommandAcknowledgementHandle {
     /// Marks the flag to indicate that the command execution is done and changes the `CommandStatus`
     pub(crate) fn done(&self, status: CommandStatus) {
+        #[cfg(feature = "verif_hooks")]
+        self.verif_point(crate::cache::verif::AckSite::Done(0));
         self.done.store(true, Ordering::Release);
+        #[cfg(feature = "verif_hooks")]
+        self.verif_point(crate::cache::verif::AckSite::Done(1));
         *self.status.lock() = status;
+        #[cfg(feature = "verif_hooks")]
+        self.verif_point(crate::cache::verif::AckSite::Done(2));
         if let Some(waker) = &self.waker_state.lock().waker {
             waker.wake_by_ref();
         }
+        #[cfg(feature = "verif_hooks")]
+        self.verif_point(crate::cache::verif::AckSite::Done(3));
+    }
+
+    #[cfg(feature = "verif_hooks")]
+    fn verif_point(&self, site: crate::cache::verif::AckSite) {
+        if let Some(handler) = self.verif.as_ref() { handler(site); }
     }
 }
 
@@ -111,6 +155,8 @@ impl Future for &CommandAcknowledgementHandle {
     type Output = CommandStatus;
 
     fn poll(self: Pin<&mut Self>, context: &mut Context<'_>) -> Poll<Self::Output> {
+        #[cfg(feature = "verif_hooks")]
+        self.verif_point(crate::cache::verif::AckSite::Poll(0));
         let mut guard = self.waker_state.lock();
         match guard.waker.as_ref() {
             Some(waker) => {
@@ -122,7 +168,11 @@ impl Future for &CommandAcknowledgementHandle {
                 guard.waker = Some(context.waker().clone());
             }
         }
+        #[cfg(feature = "verif_hooks")]
+        self.verif_point(crate::cache::verif::AckSite::Poll(1));
         if self.done.load(Ordering::Acquire) {
+            #[cfg(feature = "verif_hooks")]
+            self.verif_point(crate::cache::verif::AckSite::Poll(2));
             return Poll::Ready(*self.status.lock());
         }
         Poll::Pending
